@@ -518,7 +518,16 @@ where
         S: Read,
         R: TransferSyntaxIndex,
     {
-        let mut file = BufReader::new(src);
+        // a byte source may deliver fewer bytes on its first read
+        // than what preamble detection needs to look at:
+        // gather the first 132 bytes (or all of them, if fewer) beforehand
+        let mut src = src;
+        let mut head = Vec::with_capacity(132);
+        (&mut src)
+            .take(132)
+            .read_to_end(&mut head)
+            .context(ReadPreambleBytesSnafu)?;
+        let mut file = BufReader::new(std::io::Cursor::new(head).chain(src));
 
         if read_preamble == ReadPreamble::Auto {
             read_preamble = Self::detect_preamble(&mut file).context(ReadPreambleBytesSnafu)?;
